@@ -17,7 +17,7 @@
 (* admissibility of every emitted case; the trees are evaluated by the     *)
 (* generic evaluator (exact Fractions) to obtain the expected values.      *)
 (***************************************************************************)
-EXTENDS Cubic, Json
+EXTENDS Cubic, Json, SequencesExt
 
 CONSTANTS Seed, NRandom, NQuery
 
@@ -87,6 +87,78 @@ ASSUME JsonSerialize("cases_interp.json",
      linear |-> [x_ \in 1..Len(LinearPolys) |-> [terms |-> LinearPolys[x_], tree |-> PolyTree(LinearPolys[x_])]],
      logv |-> [x_ \in 1..Len(LogExponents) |->
                  [terms |-> LogExponents[x_], partials |-> PartialsOf(Exp(PolyTree(LogExponents[x_])), SingleNu)]]])
+
+(***************************************************************************)
+(* Further grids of the quantifier ("all origins, (skewed) axes"): the     *)
+(* reproduction obligation  interpolant(q) = p(q)  is stated in Cartesian  *)
+(* coordinates and does not depend on how the grid is laid out:            *)
+(*   - axis-parallel uniform grids whose steps are NEGATIVE (the grid runs *)
+(*     towards smaller coordinates) and tensor grids with DESCENDING nodes *)
+(*     are ordinary rectilinear grids: the polynomial must be reproduced;  *)
+(*   - uniform grids whose axes matrix is not diagonal (skewed, or rotated *)
+(*     by a quarter turn): the nested one-dimensional splines along the    *)
+(*     Cartesian directions do not apply; the weakest reading of the       *)
+(*     property is taken: the call either reproduces the polynomial or is  *)
+(*     rejected with an exception - it never returns a different number.   *)
+(* A grid is [name, shape, origin: 3 rationals, axes: 3 x 3 rationals      *)
+(* (rows = axis vectors)].                                                 *)
+(***************************************************************************)
+ZQ == <<0, 1>>
+ExtraUniform == <<
+    [name |-> "negative-step", shape |-> <<8, 7, 9>>, origin |-> << <<23, 20>>, <<-1, 2>>, <<6, 5>> >>,
+     axes |-> << << <<-1, 4>>, ZQ, ZQ >>, << ZQ, <<3, 10>>, ZQ >>, << ZQ, ZQ, <<-1, 5>> >> >>],
+    [name |-> "nondiagonal-skewed", shape |-> <<8, 7, 9>>, origin |-> << <<-3, 5>>, <<-1, 2>>, <<-2, 5>> >>,
+     axes |-> << << <<1, 4>>, <<1, 20>>, ZQ >>, << ZQ, <<3, 10>>, ZQ >>, << ZQ, ZQ, <<1, 5>> >> >>],
+    [name |-> "nondiagonal-rotated", shape |-> <<7, 8, 9>>, origin |-> << <<11, 10>>, <<-1, 2>>, <<-2, 5>> >>,
+     axes |-> << << ZQ, <<3, 10>>, ZQ >>, << <<-1, 4>>, ZQ, ZQ >>, << ZQ, ZQ, <<1, 5>> >> >>] >>
+MustReproduce(name_) == name_ \in {"negative-step", "descending"}
+ExtraTensor == <<
+    [name |-> "descending", nodes |-> <<Reverse(TensorNodes[1]), TensorNodes[2], Reverse(TensorNodes[3])>>] >>
+QDet3(a_) == QSub(QAdd(QMul(a_[1][1], QSub(QMul(a_[2][2], a_[3][3]), QMul(a_[2][3], a_[3][2]))),
+                       QMul(a_[1][3], QSub(QMul(a_[2][1], a_[3][2]), QMul(a_[2][2], a_[3][1])))),
+                  QMul(a_[1][2], QSub(QMul(a_[2][1], a_[3][3]), QMul(a_[2][3], a_[3][1]))))
+IsDiagonalQ(a_) == \A r_ \in 1..3, d_ \in 1..3 : r_ # d_ => a_[r_][d_] = ZQ
+\* point with fractional position u (each u_r in (0,1)) inside the parallelepiped of the grid
+ParaPoint(g_, u_) ==
+    [d_ \in 1..3 |-> QAdd(g_.origin[d_],
+        QSumTo([r_ \in 1..3 |-> QMul(QMul(u_[r_], QI(g_.shape[r_] - 1)), g_.axes[r_][d_])], 3))]
+FracPick(seed_) == LET s == LcgSeq(seed_ % 65536, 6) IN [d_ \in 1..3 |-> Q(1 + Pick(s[d_ + 3], 96), 97)]
+ExtraUniformQueries(x_) ==
+    [k_ \in 1..NQuery |-> ParaPoint(ExtraUniform[x_], FracPick(Seed * 389 + x_ * 7919 + k_ * 5381 + 29))]
+ExtraTensorQueries(x_) ==
+    [k_ \in 1..NQuery |->
+        LET u == FracPick(Seed * 389 + x_ * 4099 + k_ * 5381 + 31)
+        IN [d_ \in 1..3 |->
+              LET nodes == ExtraTensor[x_].nodes[d_]
+                  lo == QMinTo(nodes, Len(nodes))  hi == QMaxTo(nodes, Len(nodes))
+              IN QAdd(lo, QMul(QSub(hi, lo), u[d_]))]]
+StrictlyDecreasingQ(s_) == \A x_ \in 1..Len(s_) - 1 : QLt(s_[x_ + 1], s_[x_])
+ExtraNu == << <<0, 0, 0>>, <<1, 0, 0>>, <<0, 1, 1>>, <<0, 0, 2>> >>
+ExtraCubic == <<FixedPolys[3], RandomTerms(300, 6, 3, 3)>>
+ExtraLinear == <<FixedPolys[4]>>
+ASSUME /\ \A x_ \in 1..Len(ExtraUniform) :
+             /\ QDet3(ExtraUniform[x_].axes) # ZQ
+             /\ MustReproduce(ExtraUniform[x_].name) => IsDiagonalQ(ExtraUniform[x_].axes)
+             /\ \A d_ \in 1..3 : ExtraUniform[x_].shape[d_] >= 7
+       /\ \A x_ \in 1..Len(ExtraTensor) : \A d_ \in 1..3 :
+             /\ Len(ExtraTensor[x_].nodes[d_]) >= 7
+             /\ StrictlyIncreasingQ(ExtraTensor[x_].nodes[d_]) \/ StrictlyDecreasingQ(ExtraTensor[x_].nodes[d_])
+       /\ \E d_ \in 1..3 : StrictlyDecreasingQ(ExtraTensor[1].nodes[d_])
+       /\ \A x_ \in 1..Len(ExtraCubic) : MaxDegreeOK(ExtraCubic[x_])
+       /\ \A x_ \in 1..Len(ExtraNu) : ExtraNu[x_] \in NuSet
+ExtraPartials(tree_) == [x_ \in 1..Len(ExtraNu) |-> [nu |-> ExtraNu[x_], tree |-> Partial(tree_, ExtraNu[x_])]]
+ExtraPolys ==
+    [cubic |-> [x_ \in 1..Len(ExtraCubic) |-> [terms |-> ExtraCubic[x_], partials |-> ExtraPartials(PolyTree(ExtraCubic[x_]))]],
+     linear |-> [x_ \in 1..Len(ExtraLinear) |-> [terms |-> ExtraLinear[x_], tree |-> PolyTree(ExtraLinear[x_])]]]
+ASSUME JsonSerialize("cases_interp_extra.json",
+    [uniform |-> [x_ \in 1..Len(ExtraUniform) |->
+                    [name |-> ExtraUniform[x_].name, shape |-> ExtraUniform[x_].shape, origin |-> ExtraUniform[x_].origin,
+                     axes |-> ExtraUniform[x_].axes, must |-> MustReproduce(ExtraUniform[x_].name),
+                     queries |-> ExtraUniformQueries(x_)]],
+     tensor |-> [x_ \in 1..Len(ExtraTensor) |->
+                    [name |-> ExtraTensor[x_].name, nodes |-> ExtraTensor[x_].nodes, must |-> MustReproduce(ExtraTensor[x_].name),
+                     queries |-> ExtraTensorQueries(x_)]],
+     polys |-> ExtraPolys])
 
 VARIABLES ipc, ipoly, inu
 Init == ipc = "idle" /\ ipoly = 0 /\ inu = <<>>
